@@ -48,7 +48,7 @@ def mk_fixed_int(prop, cname, width, signed):
 
 
 def mk_decode_any(prop, cname, width, signed):
-    @harness(prop, cname + '.decode', functions=[CT + cname + '.deserialize'])
+    @harness(prop, cname + '.decode', functions=[CT + cname + '.deserialize'], native='contracts.native.codec:replay')
     def h(vc):
         b = vc.bytes('bytes')
         vc.assume(b.length() == width)
@@ -61,7 +61,7 @@ def mk_decode_any(prop, cname, width, signed):
 
 
 def mk_boolean(prop):
-    @harness(prop, 'BooleanType', functions=[CT + 'BooleanType.serialize', CT + 'BooleanType.deserialize'])
+    @harness(prop, 'BooleanType', functions=[CT + 'BooleanType.serialize', CT + 'BooleanType.deserialize'], native='contracts.native.codec:replay')
     def h(vc):
         """ensures serialize(True) == 01, serialize(False) == 00 (BooleanSerializer), deserialize inverse"""
         t = vc.bool('value')
@@ -243,7 +243,7 @@ def mk_time(prop):
 
 
 def mk_float(prop, cname, code):
-    @harness(prop, cname, functions=[CT + cname + '.serialize', CT + cname + '.deserialize'])
+    @harness(prop, cname, functions=[CT + cname + '.serialize', CT + cname + '.deserialize'], native='contracts.native.codec:replay')
     def h(vc):
         x = vc.real('value')
         pv = pv_any(vc)
@@ -261,7 +261,7 @@ def mk_float(prop, cname, code):
 
 
 def mk_text(prop, cname, enc):
-    @harness(prop, cname, functions=[CT + cname + '.serialize', CT + cname + '.deserialize'])
+    @harness(prop, cname, functions=[CT + cname + '.serialize', CT + cname + '.deserialize'], native='contracts.native.codec:replay')
     def h(vc):
         s = vc.str('value')
         pv = pv_any(vc)
@@ -276,7 +276,7 @@ def mk_text(prop, cname, enc):
 
 
 def mk_blob(prop):
-    @harness(prop, 'BytesType', functions=[CT + 'BytesType.serialize', CT + 'BytesType.deserialize'])
+    @harness(prop, 'BytesType', functions=[CT + 'BytesType.serialize', CT + 'BytesType.deserialize'], native='contracts.native.codec:replay')
     def h(vc):
         """ensures blob round trip is the identity, incl. the empty blob"""
         b = vc.bytes('value')
@@ -289,7 +289,7 @@ def mk_blob(prop):
 
 
 def mk_null(prop):
-    @harness(prop, 'null-and-empty', functions=[CT + '_CassandraType.to_binary', CT + '_CassandraType.from_binary'])
+    @harness(prop, 'null-and-empty', functions=[CT + '_CassandraType.to_binary', CT + '_CassandraType.from_binary'], native='contracts.native.codec:replay')
     def h(vc):
         """ensures to_binary(None) == b'' and from_binary(None) is None; from_binary(b'') is None for a type whose encodings are never empty"""
         pv = pv_any(vc)
@@ -308,7 +308,7 @@ INT64_MIN, INT64_MAX = -(1 << 63), (1 << 63) - 1
 
 
 def mk_zigzag(prop):
-    @harness(prop, 'zigzag', functions=[M + 'encode_zig_zag', M + 'decode_zig_zag'])
+    @harness(prop, 'zigzag', functions=[M + 'encode_zig_zag', M + 'decode_zig_zag'], native='contracts.native.codec:replay')
     def h(vc):
         """ensures encode_zig_zag(n) == VIntCoding.encodeZigZag64(n) (2n / -2n-1) for every int64 n; decode is its inverse on [0, 2^64)"""
         n = vc.int('n')
@@ -583,7 +583,7 @@ def mk_tuple(prop, udt):
 
 def mk_vector(prop, fixed):
     @harness(prop, 'VectorType<%s>' % ('fixed-size-subtype' if fixed else 'variable-size-subtype'),
-             functions=[CT + 'VectorType.serialize', CT + 'VectorType.deserialize', M + 'uvint_pack', M + 'uvint_unpack'])
+             functions=[CT + 'VectorType.serialize', CT + 'VectorType.deserialize', M + 'uvint_pack', M + 'uvint_unpack'], native='contracts.native.codec:replay')
     def h(vc):
         from cassandra import cqltypes
         Sub = abstract_subtype('VSubF4' if fixed else 'VSubV', ENC, DEC, True, 4 if fixed else None)
@@ -625,7 +625,7 @@ def mk_vector(prop, fixed):
 
 
 def mk_uuid(prop, cname):
-    @harness(prop, cname, functions=[CT + cname + '.serialize', CT + cname + '.deserialize'])
+    @harness(prop, cname, functions=[CT + cname + '.serialize', CT + cname + '.deserialize'], native='contracts.native.codec:replay')
     def h(vc):
         import uuid
         b16 = vc.bytes('uuid_bytes')
